@@ -6,8 +6,8 @@ import (
 	"time"
 
 	"github.com/karagenc/socket.io-go/internal/sync"
-	"github.com/karagenc/socket.io-go/internal/vhook"
 	"github.com/karagenc/socket.io-go/internal/utils"
+	"github.com/karagenc/socket.io-go/internal/vhook"
 
 	mapset "github.com/deckarep/golang-set/v2"
 	"github.com/karagenc/socket.io-go/adapter"
